@@ -69,6 +69,41 @@ Section RequestProofs.
     exact H0.
   Qed.
 
+  (* Full strength for the middleware brackets: in the composed model the events
+     of every resolved field are EXACTLY the word [Wk] -- for a runtime-deferred
+     resolver under non-awaiting middlewares
+        F+.. m(n-1)+..m0+ m0-..m(n-1)- Invoke Return|Raise F-..
+     (the middlewares are left when the call has been submitted), otherwise the
+     inline bracket word. The partial-order clause of the specification (exits
+     unordered with respect to the resolver body) is only needed for runtimes
+     in which a submitted resolver may start before submit returns. *)
+  Theorem deferred_words_exact : forall sigma s text oc, is_exec oc = true ->
+    run sigma pr = Some s -> pending (ms s) = [] ->
+    let c := cfg_full k n aw argerr pr text oc in
+    forall nd, In nd (nodes_of c) ->
+    filter (about (nd_path nd)) (stage_pre c ++ deferred_fields k n aw argerr pr s ++ stage_post c)
+    = Wk k n aw nd.
+  Proof.
+    intros sigma s text oc He Hrun Hp c nd Hin.
+    pose proof (deferred_ok sigma pr s text oc Hcrash Hnd He Hrun Hp) as H0. cbn zeta in H0.
+    apply trace_ok_decides in H0. unfold cfg_prog in H0.
+    apply (aw_irrelevant text oc aw) in H0.
+    set (c1 := mkConfig 1 0 text oc aw (nodes_prog pr)) in *.
+    assert (Hm : forall nd, In nd (nodes_of c1) -> argerr (nd_path nd) = true -> nd_out nd = OErr).
+    { intros nd0 Hin0. apply nodes_of_in in Hin0. apply Harg. exact Hin0. }
+    apply (erase_preserves argerr c1 _ Hm) in H0.
+    change (remark_config argerr c1) with (mkConfig 1 0 text oc aw (nodes_full argerr pr)) in H0.
+    pose proof (lift_words_exact k n aw (nodes_full argerr pr) text oc _ nodes_full_nodup H0 nd Hin) as Hw.
+    rewrite <- Hw. f_equal.
+    unfold erase. rewrite !filter_app.
+    fold (erase argerr (stage_pre (mkConfig 1 0 text oc true (nodes_prog pr)))).
+    fold (erase argerr (stage_post (mkConfig 1 0 text oc true (nodes_prog pr)))).
+    rewrite !erase_stage by (apply expand_stage).
+    rewrite !flat_map_app.
+    unfold stage_pre, stage_post. cbn [c_k c_text c_class].
+    rewrite !(lift_expand k n aw (nodes_full argerr pr)). reflexivity.
+  Qed.
+
   (* the whole request, every outcome class *)
   Theorem request_deferred_ok : forall sigma s text oc, wf_request text oc ->
     run sigma pr = Some s -> pending (ms s) = [] ->
